@@ -4,8 +4,8 @@ import build_common as bc
 
 ID = "C16"
 LEVEL = "proof"
-COQ_TARGETS = ["Props/Properties_C16.vo", "Props/Properties_C16_indep.vo", "Extract/ExtractBuild.vo"]
-PROPS_FILES = ["Props/Properties_C16.v", "Props/Properties_C16_indep.v"]
+COQ_TARGETS = ["Props/Properties_C16.vo", "Props/Properties_C16_indep.vo", "Props/Properties_C16_closure.vo", "Extract/ExtractBuild.vo"]
+PROPS_FILES = ["Props/Properties_C16.v", "Props/Properties_C16_indep.v", "Props/Properties_C16_closure.v"]
 RUNS = [dict(name="copy", harness="c04", driver="build", model_ml="build_model", harness_args=["-mode", "c16"])]
 EXPLANATION = ("Theorems about writePtr's copy branches and copyStruct (frame_all: mutual induction over the copy recursion for all source trees, arenas, capacities): copies live in storage allocated during the call, the source is untouched; data-section truncation / zero-extension; capability re-homing appends exactly one table entry. Differential run with sources built by the library, mutated, cyclic and raw, small traversal/depth limits, version skew in SetStruct/CopyFrom, mutations on both sides and re-walks.")
 TRUSTED = ["models coq/Core/Builder.v (alloc, arenas, nextAlloc, constructors, setters, writePtr, copyStruct), coq/Core/BuildOps.v "
@@ -42,11 +42,7 @@ LEVEL_NOTE = ("T2 ('the copy is equal and independent') is proved in two halves,
               "non-shallowness come from C16_forced_copy_fresh: whenever writePtr copies inside one message (forceCopy - set by "
               "copyStruct for every pointer it copies - or a list-member source; non-empty struct or list), the object table grows "
               "by an entry h that starts at the old end of its segment, is disjoint from every older object incl. the source, "
-              "and the slot written resolves to exactly h. This is a theorem about ONE writePtr call, applicable at every depth "
-              "because copyStruct writes every pointer through writePtr with forceCopy; the closure 'every slot reachable from "
-              "the copy designates a new entry' is NOT stated as one theorem (C05_copy_all would have to be re-proved with that "
-              "conclusion) - the runs check whole trees of both sides after mutating either, C16_forced_copy_is_deep_example "
-              "shows a two-level case; for copies from another message deepness follows from "
+              "and the slot written resolves to exactly h. THE CLOSURE IS NOW ONE THEOREM (Properties_C16_closure.v, coq/Core/CopyClosure.v): C16_copy_closure - for every copying writePtr inside one message (forceCopy or list-member source; non-empty struct or list), every fuel, arena and table, the table grows by h :: eo such that the slot written holds a pointer placed to h, every new entry starts at or beyond the end its segment had before the call (hence is disjoint from every older entry), and h :: eo is closed: every pointer slot of every new entry holds null, the inline empty struct, a capability index or a pointer placed to a new entry - proved by re-doing the mutual induction of C05_copy_all with that conclusion (C16_closure_all). NOT proved: the same closure stated for a top-level copyStruct (SetStruct / CopyFrom) including the destination struct's own slots as one theorem (C16_closure_all covers the new entries; each destination slot is one copying writePtr, i.e. one instance of C16_copy_closure); the corollary 'a sequence of setters on one side changes no byte of the other side' is C16_copy_independent applied to the split objs | h :: eo per step, not restated for sequences; for copies from another message deepness follows from "
               "the value half within its four restrictions. Proved without restriction: the byte-level frame (C16_copy_fresh: "
               "no older byte but the pointer word changes), no builder op writes the source message (C16_copy_keeps_source, "
               "C16_source_unchanged), source-side setters do not write the destination. The +1 reference of a re-homed "
